@@ -34,7 +34,7 @@ TRACES = ["*T*", "*", "*U*", "0", "*ICH*", "*EXP*", "*RNR*"]
 
 
 def budget(tier):
-    return 4000 if tier == "quick" else 150000
+    return 5000 if tier == "quick" else 600000
 
 
 # ---------------------------------------------------------------------------------- reference
